@@ -165,6 +165,7 @@ class Engine:
         self.summary_cache = {}
         self.fork_compares = {}                 # var name -> set of constants it was compared with
         self.notes = []
+        self.escaped = None       # set when the cursor or its budget is handed to a callee by address
         self.depth = 0
         self.on_expr = None
         self.handles = set()      # ids of pointer-to-cursor variables (`const uint8_t **pptr`): a callee receiving one moves the cursor
@@ -480,6 +481,12 @@ class Engine:
                             self.record(x.get('ln'), '%s(..%s.., %s)' % (cal, show(args[pi]), show(args[pn])), (off + n) if n is not None else None, st)
                 else:
                     for pi, a in enumerate(args):
+                        sa_ = strip(a)
+                        # `f(&cursor, &length)`: the callee may move the cursor and spend the budget; this engine follows the cursor
+                        # into callees by value only - whatever it would conclude afterwards is not a verdict
+                        if isinstance(sa_, dict) and sa_.get('k') == 'UnaryOperator' and sa_.get('op') == '&' and \
+                                (self.is_cursor(sa_['e']) or (self.count_id is not None and strip(sa_['e']).get('k') == 'DeclRefExpr' and strip(sa_['e']).get('id') == self.count_id)):
+                            self.escaped = '%s at line %s' % (show(x)[:60], x.get('ln'))
                         off = self.cursor_off(a, st)
                         if off is None:
                             continue
